@@ -655,6 +655,17 @@ class YlRoundTrip(Comp):
         if len(w) >= 3 and w[2] != "0":
             w[2] = "E"
             w[3:] = ["-"]
+        # the deviation leaf-list and the submodule list are ordered by the system (sorted in the data tree); the model
+        # gives them in context / includes-array order: compare them as sets
+        if w and (w[0].startswith("m:") or w[0].startswith("i:")):
+            ents = []
+            for e in w[0].split("|"):
+                f = e.split(",")
+                for k in ((4, 5) if e.startswith("m:") else (3,)):
+                    if k < len(f):
+                        f[k] = "+".join(sorted(x for x in f[k].split("+") if x))
+                ents.append(",".join(f))
+            w[0] = "|".join(ents)
         return " ".join(w)
 
     def gen(self, rng, tier, scale=1.0):
@@ -666,8 +677,17 @@ class YlRoundTrip(Comp):
         fs = fixed_sets()
         L.append("\t".join(["ylrt", "0", "P:1:*"] + [enc_mod(m) for m in fs[1]]))
         L.append("\t".join(["ylrt", "0", "P:1:*", "P:0:-"] + [enc_mod(m) for m in fs[0]]))
+        # x deviates a (import-only in the line): loading x implements a, the description of a lists x
+        da = {"name": "a", "rev": "2019-01-01", "impl": False, "groups": [[("f", False)], []], "imports": []}
+        dx = {"name": "x", "rev": None, "impl": True, "groups": [[]], "imports": [("a", None)], "ikind": {"a": "d"}}
+        dy = {"name": "y", "rev": None, "impl": True, "groups": [[]], "imports": [("a", None), ("x", None)], "ikind": {"a": "a"}}
+        L.append(line_of("ylrt", 0, [dx, da]))
+        L.append(line_of("ylrt", 0, [dy, da, dx]))
         for _ in range(self.n(tier, 150, 8000, scale)):
-            L.append(line_of("ylrt", 0, add_feature_deps(rng, gen_set(rng), 0.2)))
+            ms = add_feature_deps(rng, gen_set(rng), 0.2)
+            if rng.random() < 0.5:
+                add_dependencies(rng, ms)
+            L.append(line_of("ylrt", 0, ms))
         for _ in range(self.n(tier, 80, 4000, scale)):
             L.append(line_of("ylrt", 0, gen_multirev(rng)))
         for _ in range(self.n(tier, 200, 8000, scale)):
